@@ -81,6 +81,10 @@ pub fn gen(rng: &mut Rng, tier: Tier, which: &str) -> J {
             }
         }
     }
+    if rng.chance(0.3) {
+        let at = rng.below(sc.chain.len() as u64) as usize;
+        sc.chain.insert(at, Op::JsonEdit(rng.pick(&["x+1", "y-1", "angle-2pi", "angle+2pi", "cell-obtuse"]).to_string()));
+    }
     sc.to_json().set("real_part", J::str(which))
 }
 
